@@ -135,6 +135,28 @@ Theorem C09_equivalents_never_destroyed : forall seq u ops s', run true seq (ini
 Proof. intros seq u ops s' H. exact (HeapLive.run_clean seq ops (init u) s' (HeapLive.clean_init u) H). Qed.
 Print Assumptions C09_equivalents_never_destroyed.
 
+(** queries (contains*, has*, component/variable/units/reset by index or name, equivalentVariable, parent, hasAncestor, ...)
+    are ops of the model too, so their answers are predicted in every reachable state: they change nothing (a returned
+    object becomes one more handle), a null pointer is equivalent to nothing in EVERY state (an expired equivalence entry
+    never matches), and what hasEquivalentVariable confirms is alive *)
+Theorem C09_query_pure : forall seq s q s' r, step true seq s (Query q) = Ok s' r ->
+  s' = s \/ exists x, r = RObj (Some x) /\ s' = gc (add_handle s x).
+Proof. exact HeapLive.query_pure. Qed.
+Print Assumptions C09_query_pure.
+
+Theorem C09_null_equivalent_to_nothing : forall seq s v ind,
+  query_eval true seq s (QHasEquivalentVariable v None ind) = Some (RBool false).
+Proof. exact HeapLive.null_equivalent_to_nothing. Qed.
+Print Assumptions C09_null_equivalent_to_nothing.
+
+Theorem C09_has_equivalent_alive : forall seq u ops s' v w, run true seq (init u) ops = Some s' ->
+  query_eval true seq s' (QHasEquivalentVariable v (Some w) false) = Some (RBool true) -> alive s' w = true.
+Proof.
+  intros seq u ops s' v w H Q.
+  exact (HeapLive.has_equivalent_alive seq s' v w (HeapLive.run_clean seq ops (init u) s' (HeapLive.clean_init u) H) Q).
+Qed.
+Print Assumptions C09_has_equivalent_alive.
+
 (** the code before the fix commits violated the property: four families, witnesses by computation *)
 Theorem C09_unfixed_lookalike_removal_refuted :
   exists s', run false seq_conc (init U1) [AddComponent 0 (Some 1); AddComponent 0 (Some 2); RemoveComponentPtr 0 (Some 2) false] = Some s' /\
